@@ -31,7 +31,7 @@ ASSUMPTIONS = [
 ]
 BOUNDS = {
     "quick": "R<=3, F=n_obj+n_con<=3, all estimator maps x all filter maps x all masks",
-    "thorough": "R<=4, F<=4, all estimator maps x all filter maps x all masks, two value tables",
+    "thorough": "R<=4 with F<=3 and F<=4 with R<=3, all estimator maps x all filter maps x all masks",
 }
 
 
@@ -282,13 +282,13 @@ def judge(case: dict[str, Any]) -> Judgement:
 def shards(tier: str, seed: int) -> list[dict[str, Any]]:
     out: list[dict[str, Any]] = []
     rmax, fmax = (3, 3) if tier == "quick" else (4, 4)
-    variants = (0,) if tier == "quick" else (0, 1)
+    variants = (0,)
     for R in range(1, rmax + 1):
         for n_obj in (1, 2):
             for n_con in (0, 1, 2):
                 F = n_obj + n_con
-                if F > fmax:
-                    continue
+                if F > fmax or (tier == "thorough" and R == 4 and F == 4):
+                    continue  # thorough: R=4 with F<=3 and F=4 with R<=3 (the R=4,F=4 corner alone is 60% of the product)
                 for ow in OBJ_WEIGHTS[n_obj]:
                     for wname in weight_vectors(R):
                         if tier == "quick" and wname == "ramp" and R == 3:
